@@ -244,6 +244,7 @@ func cmdDump(args []string) int {
 		return 1
 	}
 	f.WriteTo(os.Stdout)
+	rules.Debug(env, parts[0], parts[1])
 	t := core.ExtractTable(f)
 	fmt.Println("atoms:")
 	for i, a := range t.Atoms {
